@@ -143,3 +143,33 @@ def int_overflow(stack):
             return True
         vals[i] = v
     return False
+
+
+def mp_eval_expr(e, x, cval):
+    """value of a CAS `Expression` tree (simplification_backend/expression.py): n-ary + and *, terminals carry one
+    integer operand; `cval(id)` gives the value of CONSTANT id.  Same conventions as mp_eval."""
+    op = e.operator
+    if op == G.INTEGER:
+        return mpmath.mpf(int(e.operands[0]))
+    if op == G.VARIABLE:
+        return mpmath.mpf(x[int(e.operands[0])])
+    if op == G.CONSTANT:
+        return mpmath.mpf(cval(int(e.operands[0])))
+    vals = [mp_eval_expr(o, x, cval) for o in e.operands]
+    if any(v is UNDEF for v in vals):
+        return UNDEF
+    try:
+        if op in (G.ADD, G.MUL):
+            acc = mpmath.mpf(0 if op == G.ADD else 1)
+            for v in vals:
+                acc = acc + v if op == G.ADD else acc * v
+            return acc
+        if op in G.ARITY2:
+            if len(vals) != 2:
+                raise Skip()
+            return mp_op(op, vals[0], vals[1])
+        if len(vals) != 1:
+            raise Skip()
+        return mp_op(op, vals[0], mpmath.mpf(0))
+    except (OverflowError, ValueError, ZeroDivisionError, mpmath.libmp.NoConvergence):
+        raise Skip()
